@@ -206,7 +206,8 @@ Definition c16_ok (ag : agent) (o1 o2 : eobs) : N :=
   | ARandom _ slots p =>
       let n := N.of_nat (length slots) in
       let live := N.of_nat (length (filter (fun s => match s with Some id => status_eqb (status1 id) SActive | None => false end) slots)) in
-      if negb (forallb (fun o => negb (is_market o) && (o_price o mod rp_tick p =? 0)
+      (* (a tick range that starts at 0 contains the sell-side market sentinel price: no clause on [is_market]) *)
+      if negb (forallb (fun o => (o_price o mod rp_tick p =? 0)
                                  && (rp_tick_lo p <=? o_price o / rp_tick p) && (o_price o / rp_tick p <? rp_tick_hi p)
                                  && (rp_vol_lo p <=? o_vol o) && (o_vol o <? rp_vol_hi p) && (o_trader o <? n)) new) then 4
       else if f32_ge_one (rp_rate p) && negb (N.of_nat (length new) =? n - live) then 5
